@@ -60,7 +60,12 @@ func vhBuildLong(ctx int, s []byte) vhCtx {
 			produced += n
 		}
 		c.preOut = produced
-		for i := 0; i < verifrt.Param("TAIL"); i++ {
+		// the number of literal bytes after the window is symbolic: where the
+		// assembly loop runs out of input relative to the crossing symbol depends on it
+		t := verifrt.Int()
+		verifrt.Assume(t >= 0 && t <= verifrt.Param("TAIL"))
+		t = verifrt.Concretize(t)
+		for i := 0; i < t; i++ {
 			vbFixedSym(tail, 'x')
 		}
 		vbFixedSym(tail, 256)
@@ -100,6 +105,10 @@ func VerifAsmDiff() {
 	c := vhBuildLong(ctx, s)
 	ref := refInflate(c.stream, refOpts{strict: false, maxOut: M + c.preOut + 210, symStart: -1})
 	verifrt.Assume(ref.status != refTooLong && ref.status != refSkip)
+	if ctx == 4 {
+		// keep the window to what matters here: a short-distance match that crosses the limit
+		verifrt.Assume(ref.maxDist <= 2 && len(ref.out) >= c.preOut+3)
+	}
 
 	run := func(level int) ([]byte, int, int) {
 		cpu.ArchLevel = level
